@@ -44,6 +44,7 @@ def part_case(draw, accessor=False, threaded=False):
         method=draw(st.sampled_from(["ptm1", "ptm2", "ptm3"])), smooth=False if threaded else draw(st.booleans()) if accessor else False,
         threads=draw(st.sampled_from([4, 8, 16])) if threaded else 0,
         pre=draw(st.one_of(st.none(), st.none(), st.integers(0, 7))),
+        smooth_src=draw(st.sampled_from([None, None, "box", "other"])), other=draw(gen.spectrum(kinds=gen.MULTI_KINDS)),
     )
 
 
@@ -98,24 +99,33 @@ def check_np(case, ctx):
         with ctx.lib("specpart.partition on a %dx%d grid first" % shp):
             specpart.partition(gen.build_spectrum(case["specs"][0], shp[0], shp[1], dtype=np.float32), ih)
         ctx.label("other-shape-first")
+    # the numpy-level functions take the spectrum and, separately, the (smoothed) spectrum that draws the watershed
+    # boundaries: the partitions - and every fraction decided on them - hold the former
+    S = E
+    if case.get("smooth_src") == "box":
+        S = np.mean([np.roll(np.pad(E, ((1, 1), (0, 0)), mode="edge"), (0, j), axis=(0, 1))[1 + i:E.shape[0] + 1 + i] for i in (-1, 0, 1) for j in (-1, 0, 1)], axis=0).astype(E.dtype)
+    elif case.get("smooth_src") == "other":
+        S = np.ascontiguousarray(gen.build_spectrum(case["other"], E.shape[0], E.shape[1], dtype=np.dtype(case["dtype"])))
+    if S is not E:
+        ctx.label("boundaries-from=" + case["smooth_src"])
     with ctx.lib("specpart.partition"):
-        wmap = np.asarray(specpart.partition(np.ascontiguousarray(E, dtype=np.float32), ih))
+        wmap = np.asarray(specpart.partition(np.ascontiguousarray(S, dtype=np.float32), ih))
     detected = int(wmap.max())
     # "as many as the watershed detects" is a property of the spectrum: regional maxima of its discretised levels,
     # counted independently of the routine
     from ..ref import watershed as W
 
-    why, nref = W.check_map(np.ascontiguousarray(E, dtype=np.float32), ih, wmap)
+    why, nref = W.check_map(np.ascontiguousarray(S, dtype=np.float32), ih, wmap)
     if why is not None:
         raise Violation("watershed-map", "the label map behind the partitions is not the watershed of the spectrum: %s (%d labels, %d regional maxima) on a %dx%d grid" % (why, detected, nref, E.shape[0], E.shape[1]))
     req = max(0 if case["method"] != "ptm3" else 1, detected + case["rel"])
     method = case["method"]
     with ctx.lib("np_%s" % method):
         if method == "ptm3":
-            out = P.np_ptm3(E, E, f, dirs, parts=req, ihmax=ih)
+            out = P.np_ptm3(E, S, f, dirs, parts=req, ihmax=ih)
         else:
             fn = P.np_ptm1 if method == "ptm1" else P.np_ptm2
-            out = fn(E, E, f, dirs, w["wspd"], w["wdir"], w["dpt"], agefac=case["agefac"], wscut=case["wscut"], swells=req, ihmax=ih)
+            out = fn(E, S, f, dirs, w["wspd"], w["wdir"], w["dpt"], agefac=case["agefac"], wscut=case["wscut"], swells=req, ihmax=ih)
     out = np.asarray(out)
     n_wsea = {"ptm1": 1, "ptm2": 2, "ptm3": 0}[method]
     tot, src, hs = predicates(out, E, f, dirs, None, req + n_wsea, detected, n_wsea)
